@@ -33,12 +33,12 @@ CONSTANTS Kind,        \* "sampler" | "quick" | "analyzer"
 
 VARIABLES w, cfg, snap, cached, cont, used, last, err, an
 vars == <<w, cfg, snap, cached, cont, used, last, err, an>>
-Circs == {"A", "B", "C"}          \* A, B: herald on the same mode with 0 / 1 photons; C: herald on another mode
-HeraldOf(c) == IF c = "A" THEN 0 ELSE IF c = "B" THEN 1 ELSE 2
-UTok(c) == <<w.pv, w.e[c]>>
+Circs == {"A", "B", "C", "D"}     \* A, B: herald on the same mode with 0 / 1 photons; C: herald on another mode; D: no loss element, herald on a third mode
+HeraldOf(c) == IF c = "A" THEN 0 ELSE IF c = "B" THEN 1 ELSE IF c = "C" THEN 2 ELSE 3
+UTok(c) == <<w.pv, w.e[c], c = "D">>
 \* post-selection held by the quick sampler: 0 none, 1 the PostSelection object X (rule content w.psc, mutable in place),
 \* 2 / 3 two closures made by ONE factory (same code object, different captured mode)
-PSTok == IF cfg.ps = 0 THEN 0 ELSE IF cfg.ps = 1 THEN 1 + w.psc ELSE cfg.ps + 1
+PSTok == IF cfg.ps = 0 THEN 0 ELSE IF cfg.ps = 1 THEN 1 + w.psc ELSE cfg.ps + 10
 \* source held by the sampler: cfg.src = 0 a Source created for it with brightness token cfg.br; cfg.src = 1 the shared Source
 \* object S whose brightness / purity (w.sb, w.sp) can be modified in place
 SrcTok == IF cfg.src = 0 THEN <<cfg.br, 1>> ELSE <<w.sb, w.sp>>
@@ -53,8 +53,9 @@ SnapOf ==
    THEN <<UTok(cfg.circ), cfg.inp, IF Variant = "fixedps" THEN PSTok ELSE cfg.ps, cfg.pnr>> \o (IF Variant = "pinned" THEN <<>> ELSE <<HeraldOf(cfg.circ)>>)
    ELSE <<UTok(cfg.circ), cfg.inp, cfg.be, SrcTok>> \o (IF Variant = "pinned" THEN <<>> ELSE <<HeraldOf(cfg.circ)>>)
 
-Init == /\ w = [pv |-> 1, e |-> [c \in Circs |-> 0], psc |-> 0, sb |-> 1, sp |-> 1, deff |-> 1, aps |-> 0]
-        /\ cfg = [circ |-> "A", inp |-> 1, br |-> 1, be |-> 1, ps |-> 0, pnr |-> 1, src |-> 0, det |-> 0]
+\* "imperfect" in Feat: the object starts with the shared Detector at efficiency token 2 (histories that sample with detection loss from the start)
+Init == /\ w = [pv |-> 1, e |-> [c \in Circs |-> 0], psc |-> 0, sb |-> 1, sp |-> 1, deff |-> (IF "imperfect" \in Feat THEN 2 ELSE 1), aps |-> 0]
+        /\ cfg = [circ |-> "A", inp |-> 1, br |-> 1, be |-> 1, ps |-> 0, pnr |-> 1, src |-> 0, det |-> (IF "imperfect" \in Feat THEN 1 ELSE 0)]
         /\ snap = <<>> /\ cached = <<>> /\ cont = <<>> /\ used = <<>>
         /\ last = <<"init", 0>> /\ err = FALSE
         /\ an = [has |-> FALSE, res |-> FALSE, exp |-> FALSE, psused |-> 0]
@@ -68,7 +69,8 @@ SetInput(i) == cfg.inp # i /\ cfg' = [cfg EXCEPT !.inp = i] /\ UNCHANGED w /\ la
 SetSource(b) == Kind = "sampler" /\ cfg.br # b /\ cfg' = [cfg EXCEPT !.br = b] /\ UNCHANGED w /\ last' = <<"set_source", b>> /\ Frame
 SetBackend(b) == Kind = "sampler" /\ cfg.be # b /\ cfg' = [cfg EXCEPT !.be = b] /\ UNCHANGED w /\ last' = <<"set_backend", b>> /\ Frame
 SetPostSelect(p) == Kind = "quick" /\ cfg.ps # p /\ cfg' = [cfg EXCEPT !.ps = p] /\ UNCHANGED w /\ last' = <<"set_ps", p>> /\ Frame
-MutatePostSelect == Kind = "quick" /\ MutatePS /\ w.psc = 0 /\ w' = [w EXCEPT !.psc = 1] /\ UNCHANGED cfg /\ last' = <<"mutate_ps", 0>> /\ Frame
+\* two in-place mutations of X: the first adds a rule on a mode without one, the second (X allows several rules per mode) on a mode that has one
+MutatePostSelect == Kind = "quick" /\ MutatePS /\ w.psc < 2 /\ w' = [w EXCEPT !.psc = @ + 1] /\ UNCHANGED cfg /\ last' = <<"mutate_ps", 0>> /\ Frame
 SetPnr(p) == Kind = "quick" /\ cfg.pnr # p /\ cfg' = [cfg EXCEPT !.pnr = p] /\ UNCHANGED w /\ last' = <<"set_pnr", p>> /\ Frame
 \* the shared Source / Detector objects: assigned, then modified IN PLACE
 UseSharedSource(x) == Kind = "sampler" /\ cfg.src # x /\ cfg' = [cfg EXCEPT !.src = x] /\ UNCHANGED w /\ last' = <<"use_shared_source", x>> /\ Frame
